@@ -115,6 +115,12 @@ def run(c):
     for _ in range(n):
         f = jg.gen_forest(c.rng)
         cases.append((f, gen_query(c.rng, f, single_metric_model=c.rng.random() < 0.7)))
+    cf = jg.corpus_forest()
+    cases[:0] = [
+        (cf, dict(dims=[("mb", jg.jcol("s0"))], mets=[("ma", "sum", jg.jcol("c0"), [])], filters=[])),                       # K1: non-base metric through many_to_one
+        (cf, dict(dims=[], mets=[("ma", "sum", jg.jcol("c0"), [])], filters=[("mb", ("not", ("isnull", jg.jcol("id"))))])),  # K2: NULL measure under the symmetric SUM
+        (cf, dict(dims=[("ma", jg.jcol("s0"))], mets=[("ma", "sum", jg.jcol("c1"), []), ("ma", "count", None, [])], filters=[("mb", ("cmp", "=", jg.jcol("s0"), sg.lit("a")))])),
+    ]
     outs = None
     if lib.coq_make(["Proofs/C02_proofs.vo", "Model/Plan.vo"])[0]:
         try:
